@@ -97,10 +97,6 @@ func init() {
 		"runtime.Goexit":                  ext۰runtime۰Goexit,
 		"runtime.Gosched":                 ext۰runtime۰Gosched,
 		"runtime.NumCPU":                  ext۰runtime۰NumCPU,
-		"sort.Float64s":                   ext۰sort۰Float64s,
-		"sort.Ints":                       ext۰sort۰Ints,
-		"sort.Strings":                    ext۰sort۰Strings,
-		"strconv.Atoi":                    ext۰strconv۰Atoi,
 		"strconv.Itoa":                    ext۰strconv۰Itoa,
 		"strconv.FormatFloat":             ext۰strconv۰FormatFloat,
 		"strings.Count":                   ext۰strings۰Count,
@@ -110,7 +106,6 @@ func init() {
 		"strings.Replace":                 ext۰strings۰Replace,
 		"strings.ToLower":                 ext۰strings۰ToLower,
 		"time.Sleep":                      ext۰time۰Sleep,
-		"unicode/utf8.DecodeRuneInString": ext۰unicode۰utf8۰DecodeRuneInString,
 	} {
 		externals[k] = v
 	}
